@@ -71,12 +71,22 @@ mod proofs {
         assert!(false, "reachability witness");
     }
 
-    /// C10 kernel: IndexEntry::mtime() on arbitrary decoded field values must not panic.
+    /// C10 kernel: the condition IndexEntry::check() imposes on decoded (mtime, mtime_nanos) is sufficient for
+    /// IndexEntry::mtime() and ToFileTime not to panic (real jiff + filetime code).
     #[kani::proof]
     #[kani::unwind(3)]
-    fn decoded_mtime_never_panics() {
+    fn checked_decoded_mtime_never_panics() {
         let mtime: i64 = kani::any();
         let mtime_nanos: u32 = kani::any();
+        kani::assume(mtime_nanos < 1_000_000_000);
+        match Timestamp::new(mtime, mtime_nanos as i32) {
+            Ok(_) => {}
+            Err(e) => {
+                std::mem::forget(e);
+                kani::assume(false);
+            }
+        }
+        kani::cover!(mtime < 0 && mtime_nanos > 0, "pre-epoch with nanos");
         let e = IndexEntry {
             apath: Apath::root(),
             kind: Kind::File,
